@@ -1,4 +1,6 @@
 """C06 — world-login proof is accepted iff name, session key and both seeds match (E1 + hashlib, x3 expansions)."""
+import zlib
+
 import model as M
 from common import Monitor, rng_for
 from c01 import rand_cred, case_variant
@@ -60,6 +62,9 @@ def run_login(w, sc, mon):
     if int(g.f["seed"]) != cs:
         viol("seed_accessor_unstable", "seed() returned two different values for one object")
     mon.ev()
+    if sc.get("noise"):
+        w.call("noise", k=sc["noise"])
+        mon.count("logins_preceded_by_other_module_calls")
     cp = w.call("seed_client", h=1, into=3, u=sc["cuser"], K=K, sseed=ss)
     if cp.status != "ok":
         viol("panic:into_client_header_crypto", str(cp.f))
@@ -75,6 +80,8 @@ def run_login(w, sc, mon):
 
     def decide(kind, pos, name, key, pres, cseed):
         mon.ev()
+        if sc.get("noise") and (zlib.crc32(str(pos).encode()) % 5 == 0):
+            w.call("noise", k=(sc["noise"] + zlib.crc32(str(pos).encode())) & 0xFFFF)
         r = w.call("seed_server", h=2, into=4, u=name, K=key, proof=pres, cseed=cseed)
         if r.status == "panic":
             viol("panic:into_server_header_crypto:" + kind, r.f.get("msg"))
@@ -165,6 +172,8 @@ def make(rnd, x, full, boundary):
     sc = {"x": x, "user": rand_cred(rnd), "K": bytes(rnd.getrandbits(8) for _ in range(40)).hex(),
           "pseed": rnd.getrandbits(32), "perts": "full" if full else "sampled"}
     sc["cuser"] = case_variant(rnd, sc["user"])
+    if rnd.random() < 0.15:
+        sc["noise"] = rnd.getrandbits(16)
     r = rnd.random()
     if r < 0.02:
         sc["K"] = bytes(40).hex()
@@ -217,10 +226,12 @@ def worker(idx, nworkers, tier, seed, extra):
     nfull, nsamp = {"quick": (6, 700), "thorough": (200, 50000)}[tier]
     w = Wsx()
     try:
-        for x in ("v", "t", "w"):
-            for i in range(nfull):
+        # the three modules are interleaved on one executor (order of use must not matter)
+        for i in range(nfull):
+            for x in rnd.sample(("v", "t", "w"), 3):
                 run_login(w, make(rnd, x, True, i % 2 == 0), mon)
-            for i in range(nsamp):
+        for i in range(nsamp):
+            for x in rnd.sample(("v", "t", "w"), 3):
                 run_login(w, make(rnd, x, False, rnd.random() < 0.25), mon)
                 if i % 100 == 0:
                     related_history(w, rnd, mon, x)
